@@ -270,6 +270,7 @@ theorem src_load_var_uint_eq (k : Nat) (s : Py.SliceSt R) :
   · have h1 : ¬ ¬ len ≠ 0 := by omega
     have h2 : ¬ ((len : Nat) : Int) = 0 := by omega
     rw [if_neg h2]; src_if; rw [bindS_ret, Int.toNat_natCast]
+    try rw [Nat.mul_comm 8 len]
     exact src_load_uint_eq (len * 8) s1
 
 theorem src_load_var_int_eq (k : Nat) (s : Py.SliceSt R) : viewR id (load_var_int k s) = SOp.loadVarInt k (view s) := by
@@ -283,6 +284,7 @@ theorem src_load_var_int_eq (k : Nat) (s : Py.SliceSt R) : viewR id (load_var_in
   · have h1 : ¬ ¬ len ≠ 0 := by omega
     have h2 : ¬ ((len : Nat) : Int) = 0 := by omega
     rw [if_neg h2]; src_if; rw [bindS_ret, Int.toNat_natCast]
+    try rw [Nat.mul_comm 8 len]
     exact src_load_int_eq (len * 8) s1
 
 theorem src_load_coins_eq (s : Py.SliceSt R) :
@@ -311,6 +313,7 @@ theorem src_preload_var_uint_eq (k : Nat) (s : Py.SliceSt R) :
   · have h1 : ¬ ¬ len ≠ 0 := by omega
     have h2 : ¬ ((len : Nat) : Int) = 0 := by omega
     rw [if_neg h2]; src_if; rw [Int.toNat_natCast]
+    try rw [Nat.mul_comm 8 len]
     exact src_window _ Py.ba2intU? SOp.ba2intU ba2intU_eq (k + len * 8) k s1
 
 theorem src_preload_var_int_eq (k : Nat) (s : Py.SliceSt R) :
@@ -325,6 +328,7 @@ theorem src_preload_var_int_eq (k : Nat) (s : Py.SliceSt R) :
   · have h1 : ¬ ¬ len ≠ 0 := by omega
     have h2 : ¬ ((len : Nat) : Int) = 0 := by omega
     rw [if_neg h2]; src_if; rw [Int.toNat_natCast]
+    try rw [Nat.mul_comm 8 len]
     exact src_window id Py.ba2intS? SOp.ba2intS (fun bs => by rw [Option.map_id, id, ba2intS_eq]) (k + len * 8) k s1
 
 theorem src_preload_coins_eq (s : Py.SliceSt R) :
